@@ -94,7 +94,22 @@ def generate(rng, tier, index):
 
 # ---------------------------------------------------------------------------- helpers
 def structural_offsets(doc):
-    return [i + 1 for i, c in enumerate(doc) if c in b'{",[]}:']
+    """prefix lengths that end right after a token boundary of the JSON text, plus every cut
+    inside a bare literal (null/true/false/NaN/Infinity) - the places where a tolerant reader
+    is most likely to mis-classify a torn document"""
+    import re
+
+    from .. import boot
+
+    # the document embeds the scratch root (pid-dependent characters, fixed length): mask it so
+    # that the chosen offsets do not depend on the process that runs the simulation
+    root = (boot.SCRATCH["root"] or "").encode()
+    if root:
+        doc = doc.replace(root, b"x" * len(root))
+    out = {i + 1 for i, c in enumerate(doc) if c in b'{",[]}:.-+eE'}
+    for m in re.finditer(rb"null|true|false|NaN|Infinity", doc):
+        out.update(range(m.start() + 1, m.end()))
+    return sorted(out)
 
 
 def resolve_k(spec, doc):
